@@ -281,6 +281,11 @@ func (r *Report) Finish(verifDir string) int {
 	if r.Prog != nil {
 		cov["functions_analysed"] = len(r.Prog.Funcs())
 		cov["packages_loaded"] = len(r.Prog.Pkgs)
+		if r.Prog.Whole {
+			cov["call_graph"] = "VTA over the whole program (dependencies loaded with bodies: callbacks from crypto/tls, quic-go, net/http into receptor are resolved)"
+		} else {
+			cov["call_graph"] = "VTA over receptor bodies, dependencies bodiless (opaque externals with the stated contracts)"
+		}
 		cov["load_s"] = r.Prog.LoadS
 	}
 	for k, v := range r.Extra {
